@@ -189,7 +189,10 @@ def check_call(run, i, op, result):
                 cur = None
                 continue
             vid, written = int(m.group(1)), int(m.group(2))
-            if cur is None or cur[0] != vid or any(p == ph for _, _, p in cur[1]):
+            # the fields of one output instance of a value arrive in the order they are written in
+            # (the letter is the position): a placeholder that is not to the right of the previous one
+            # starts a new instance (a repetition, or another element using the same snippet)
+            if cur is None or cur[0] != vid or ph[-1] <= cur[1][-1][2][-1]:
                 cur = (vid, [])
                 instances.append(cur)
             cur[1].append((observed, written, ph))
